@@ -195,7 +195,41 @@ def harness_build(prop):
     return rc == 0, out
 
 
+SLOT_DIR = "/tmp/verif-coqc-slots"
+N_SLOTS = int(os.environ.get("VERIF_COQC_SLOTS", "20"))
+
+
+class Slot:
+    """Machine-wide cap on concurrently running shard evaluations (several checks may run at once;
+    each coqc needs up to ~1 GB)."""
+
+    def __enter__(self):
+        os.makedirs(SLOT_DIR, exist_ok=True)
+        import random
+        while True:
+            order = list(range(N_SLOTS))
+            random.shuffle(order)
+            for k in order:
+                f = open(os.path.join(SLOT_DIR, "slot%d" % k), "w")
+                try:
+                    fcntl.flock(f, fcntl.LOCK_EX | fcntl.LOCK_NB)
+                    self.f = f
+                    return self
+                except OSError:
+                    f.close()
+            time.sleep(0.5)
+
+    def __exit__(self, *a):
+        fcntl.flock(self.f, fcntl.LOCK_UN)
+        self.f.close()
+
+
 def run_shard(path):
+    with Slot():
+        return run_shard_inner(path)
+
+
+def run_shard_inner(path):
     t0 = time.time()
     # large literal lists need a deep stack in coqc's parser
     rc, out = run(["sh", "-c", 'ulimit -s unlimited 2>/dev/null; exec coqc -noglob -Q "$0" FB "$1"', COQ, path], cwd=os.path.dirname(path), timeout=3000)
@@ -347,7 +381,16 @@ def main(prop, spec):
     if report is not None and ok:
         paths = [os.path.join(workdir, s["name"] + ".v") for s in report["shards"]]
         with cf.ThreadPoolExecutor(max_workers=int(os.environ.get("VERIF_JOBS", "16"))) as ex:
-            for path, idx, sout, dt in ex.map(run_shard, paths):
+            results = list(ex.map(run_shard, paths))
+        # a coqc killed for lack of memory on a busy machine prints nothing: retry those one at a time
+        for k, (path, idx, sout, dt) in enumerate(results):
+            if idx is None and "Error" not in sout:
+                for _ in range(2):
+                    results[k] = run_shard(path)
+                    if results[k][1] is not None:
+                        break
+        if True:
+            for path, idx, sout, dt in results:
                 shard_times.append(dt)
                 if idx is None:
                     broken.append(("correspondence", "coqc failed on %s:\n%s" % (os.path.basename(path), sout[-1500:])))
